@@ -30,7 +30,7 @@ inductive Supported : List String → Expr → Prop
   | boolop (b op vs) : (∀ e ∈ vs, Supported b e) → Supported b (.boolop op vs)
   | binop (b op l r) : op ∈ docBinops → Supported b l → Supported b r → Supported b (.binop op l r)
   | not (b x) : Supported b x → Supported b (.unary "Not" x)
-  | compare (b l rest) : Supported b l → (∀ p ∈ rest, p.1 ∈ docCmpops ∧ Supported b p.2) →
+  | compare (b l rest) : Supported b l → (∀ p ∈ rest, p.1 ∈ docCmpops) → (∀ p ∈ rest, Supported b p.2) →
       Supported b (.compare l rest)
   /-- a call; which targets are *accepted* is C09's subject — refused targets are refused identically -/
   | call (b f args kwargs) : (∀ a ∈ args, Supported b a) → (∀ k ∈ kwargs, Supported b k.2) →
@@ -70,7 +70,7 @@ variable {P : Prim} {cfg : RefCfg} {I : Expr → M PVal} {R : Env → Expr → E
 theorem matches_bind {α β : Type} {m : M α} {r : Except Err α} {f : α → M β} {g : α → Except Err β} {st : St}
     (hm : Matches m r st)
     (hf : ∀ a st', r = .ok a → st'.ns = st.ns → st'.record = st.record → Matches (f a) (g a) st') :
-    Matches (M.bind m f) (match r with | .error e => .error e | .ok a => g a) st := by
+    Matches (M.bind m f) (r >>= g) st := by
   intro hG
   cases r with
   | error e =>
@@ -96,7 +96,7 @@ theorem matches_bind {α β : Type} {m : M α} {r : Except Err α} {f : α → M
       simp only
       exact ⟨this.1, this.2.1.trans h2, this.2.2.trans h3⟩
 
-theorem matches_pure {α : Type} (a : α) (st : St) : Matches (M.pure a) (.ok a) st :=
+theorem matches_pure {α : Type} (a : α) (st : St) : Matches (M.pure a) (pure a) st :=
   fun _ => ⟨rfl, rfl, rfl⟩
 
 theorem matches_lift {α : Type} (r : Except Err α) (st : St) : Matches (M.lift r) r st :=
@@ -132,5 +132,517 @@ theorem matches_evalKwargs (hA : Agree cfg I R) (es : List (String × Expr)) (st
     have ih' := ih st' (hrec.trans hr) (fun x hx => hns ▸ hS x (by simp [hx]))
     rw [hns] at ih'
     exact matches_bind ih' (fun vs st'' _ _ _ => matches_pure _ st'')
+
+theorem matches_evalBool (hA : Agree cfg I R) (stopOn : Bool) (es : List Expr) (last : PVal) (st : St)
+    (hr : st.record = cfg.record) (hS : ∀ e ∈ es, Supported (keys st.ns) e) :
+    Matches (evalBool P I stopOn es last) (rBool P R st.ns stopOn es last) st := by
+  induction es generalizing st last with
+  | nil => exact matches_pure _ st
+  | cons e es ih =>
+    intro hG
+    unfold rBool at hG ⊢
+    unfold evalBool
+    have hA' := hA e st hr (hS e (by simp))
+    unfold AgreeAt at hA'
+    cases hR : R st.ns e with
+    | error x =>
+      rw [hR] at hG hA'
+      have hb : Bad x = false := good_err hG
+      obtain ⟨h1, h2, h3⟩ := hA' (good_of_err hG)
+      cases hI : I e st with
+      | mk s' r =>
+        rw [hI] at h1 h2 h3
+        simp only at h1 h2 h3
+        subst h1
+        cases x <;> first | exact ⟨rfl, h2, h3⟩ | (simp [Bad] at hb)
+    | ok v =>
+      rw [hR] at hG hA'
+      obtain ⟨h1, h2, h3⟩ := hA' (good_ok v)
+      cases hI : I e st with
+      | mk s' r =>
+        rw [hI] at h1 h2 h3
+        simp only at h1 h2 h3
+        subst h1
+        simp only [bind, Except.bind] at hG ⊢
+        by_cases ht : (P.truthy v == stopOn) = true
+        · simp only [ht, if_true] at hG ⊢
+          exact ⟨rfl, h2, h3⟩
+        · simp only [ht] at hG ⊢
+          have := ih v s' (h3.trans hr) (fun x hx => h2 ▸ hS x (by simp [hx])) (by rw [h2]; exact hG)
+          rw [h2] at this
+          exact ⟨this.1, this.2.1, this.2.2.trans h3⟩
+
+theorem link_plain (op : String) (f : PVal → PVal → Except Err PVal) (l r : PVal) (st : St)
+    (ht : tableCompare P op = .ok f) (hd : rCompare P cfg op l r = f l r)
+    (hn : (op == "In" || op == "NotIn") = false) : Matches (linkCompare P op l r) (rCompare P cfg op l r) st := by
+  intro _
+  simp [linkCompare, ht, hn, hd]
+
+/-- Inst-level fact about the generated comparator table, lifted to every operand: for a documented operator the
+    interpreter's link equals the reference's whenever the reference result is defined. -/
+theorem matches_link (hc : cfg.compiled = false) (op : String) (hop : op ∈ docCmpops) (l r : PVal) (st : St) :
+    Matches (linkCompare P op l r) (rCompare P cfg op l r) st := by
+  simp only [docCmpops, List.mem_cons, List.mem_nil_iff, or_false] at hop
+  rcases hop with h | h | h | h | h | h | h | h | h | h <;> subst h
+  · exact link_plain "Eq" (P.rich .eq) l r st rfl rfl rfl
+  · exact link_plain "NotEq" (P.rich .ne) l r st rfl rfl rfl
+  · exact link_plain "Lt" (P.rich .lt) l r st rfl rfl rfl
+  · exact link_plain "Gt" (P.rich .gt) l r st rfl rfl rfl
+  · exact link_plain "LtE" (P.rich .le) l r st rfl rfl rfl
+  · exact link_plain "GtE" (P.rich .ge) l r st rfl rfl rfl
+  · -- In
+    intro hG
+    have ht : tableCompare P "In" = .ok (fun l r =>
+        if l.isMissing || r.isMissing then .ok (.bool false) else (P.contains r l).map PVal.bool) := rfl
+    have hd : docCmp "In" = some .guardedIn := rfl
+    simp only [rCompare, hd, hc] at hG ⊢
+    simp only [linkCompare, ht]
+    by_cases hm : (l.isMissing || r.isMissing || l.isTmatch) = true
+    · simp [hm] at hG
+      exact absurd (hG _ rfl) (by simp [Bad])
+    · simp only [Bool.or_eq_true, not_or, Bool.not_eq_true] at hm
+      simp [hm.1.1, hm.1.2, hm.2]
+  · -- NotIn
+    intro hG
+    have ht : tableCompare P "NotIn" = .ok (fun l r =>
+        if l.isMissing || r.isMissing then .ok (.bool false)
+        else (P.contains r l).map (fun b => PVal.bool (b == false))) := rfl
+    have hd : docCmp "NotIn" = some .guardedNotIn := rfl
+    simp only [rCompare, hd, hc] at hG ⊢
+    simp only [linkCompare, ht]
+    by_cases hm : (l.isMissing || r.isMissing || l.isTmatch) = true
+    · simp [hm] at hG
+      exact absurd (hG _ rfl) (by simp [Bad])
+    · simp only [Bool.or_eq_true, not_or, Bool.not_eq_true] at hm
+      simp only [hm.1.1, hm.1.2, hm.2, Bool.and_false, Bool.false_eq_true, ↓reduceIte, Bool.or_self, Bool.not_false]
+      cases P.contains r l with
+      | error e => simp [Except.map]
+      | ok b => cases b <;> simp [Except.map]
+  · exact link_plain "Is" (fun l r => .ok (.bool (P.is_ l r))) l r st rfl rfl rfl
+  · exact link_plain "IsNot" (fun l r => .ok (.bool (!P.is_ l r))) l r st rfl rfl rfl
+
+theorem matches_ite {α : Type} {c : Prop} [Decidable c] {m1 m2 : M α} {r1 r2 : Except Err α} {st : St}
+    (h1 : c → Matches m1 r1 st) (h2 : ¬ c → Matches m2 r2 st) :
+    Matches (if c then m1 else m2) (if c then r1 else r2) st := by
+  by_cases h : c
+  · simp only [if_pos h]; exact h1 h
+  · simp only [if_neg h]; exact h2 h
+
+theorem matches_evalChain (hA : Agree cfg I R) (hc : cfg.compiled = false) (rest : List (String × Expr))
+    (left result : PVal) (st : St) (hr : st.record = cfg.record) (hop : ∀ p ∈ rest, p.1 ∈ docCmpops)
+    (hS : ∀ p ∈ rest, Supported (keys st.ns) p.2) :
+    Matches (evalChain P I left rest result) (rChain P cfg R st.ns left rest result) st := by
+  induction rest generalizing st left result with
+  | nil => exact matches_pure _ st
+  | cons oc rest ih =>
+    obtain ⟨op, c⟩ := oc
+    unfold evalChain rChain
+    simp only [bind_eq, pure_eq]
+    refine matches_bind (agree_matches hA c st hr (hS (op, c) (by simp))) (fun right st' _ hns hrec => ?_)
+    refine matches_bind (matches_link hc op (hop (op, c) (by simp)) left right st') (fun res st'' _ hns' hrec' => ?_)
+    refine matches_ite (fun _ => matches_pure _ st'') (fun _ => ?_)
+    have e : st''.ns = st.ns := hns'.trans hns
+    have := ih right res st'' ((hrec'.trans hrec).trans hr) (fun p hp => hop p (by simp [hp]))
+      (fun p hp => e ▸ hS p (by simp [hp]))
+    rw [e] at this
+    exact this
+
+theorem matches_evalIfs (hA : Agree cfg I R) (cs : List Expr) (st : St) (hr : st.record = cfg.record)
+    (hS : ∀ e ∈ cs, Supported (keys st.ns) e) : Matches (evalIfs P I cs) (rIfs P R st.ns cs) st := by
+  induction cs generalizing st with
+  | nil => exact matches_pure _ st
+  | cons e es ih =>
+    unfold evalIfs rIfs
+    simp only [bind_eq, pure_eq]
+    refine matches_bind (agree_matches hA e st hr (hS e (by simp))) (fun v st' _ hns hrec => ?_)
+    refine matches_ite (fun _ => ?_) (fun _ => matches_pure _ st')
+    have := ih st' (hrec.trans hr) (fun x hx => hns ▸ hS x (by simp [hx]))
+    rw [hns] at this
+    exact this
+
+/-! ### generator expressions (one `for` clause) -/
+
+theorem delVar_of_not_mem {x : String} {ns : Env} (h : x ∉ keys ns) : delVar x ns = ns := by
+  induction ns with
+  | nil => rfl
+  | cons p ns ih =>
+    simp only [keys, List.map_cons, List.mem_cons, not_or] at h
+    have ih' := ih (by simpa [keys] using h.2)
+    simp only [delVar, List.filter_cons]
+    have : (p.1 != x) = true := by simpa [bne_iff_ne] using (fun hh => h.1 hh.symm)
+    simp only [this, if_true]
+    exact congrArg _ ih'
+
+theorem delVar_cons_self (x : String) (v : PVal) (ns : Env) : delVar x ((x, v) :: ns) = delVar x ns := by
+  simp [delVar]
+
+theorem lookup_none_of_not_mem {x : String} {ns : Env} (h : x ∉ keys ns) : ns.lookup x = none := by
+  induction ns with
+  | nil => rfl
+  | cons p ns ih =>
+    obtain ⟨k, v⟩ := p
+    simp only [keys, List.map_cons, List.mem_cons, not_or] at h
+    have : (x == k) = false := by simpa using h.1
+    simp only [List.lookup, this]
+    exact ih (by simpa [keys] using h.2)
+
+/-- agreement up to the loop variable `x`: same result, and the namespace is `ns0` once `x` is removed -/
+def MatchesMod {α : Type} (x : String) (ns0 : Env) (m : M α) (r : Except Err α) (st : St) : Prop :=
+  Good r → (m st).2 = r ∧ delVar x (m st).1.ns = ns0 ∧ (m st).1.record = st.record
+
+theorem matchesMod_forVals (x : String) (ns0 : Env) (body : PVal → M (Option Bool))
+    (rbody : PVal → Except Err (Option Bool))
+    (rec0 : PVal) (hb : ∀ val s, delVar x s.ns = ns0 → s.record = rec0 → MatchesMod x ns0 (body val) (rbody val) s)
+    (vals : List PVal) (st : St) (hst : delVar x st.ns = ns0) (hrec0 : st.record = rec0) :
+    MatchesMod x ns0 (forVals body vals) (rForVals rbody vals) st := by
+  induction vals generalizing st with
+  | nil => intro _; exact ⟨rfl, hst, rfl⟩
+  | cons v vs ih =>
+    intro hG
+    unfold forVals
+    unfold rForVals at hG ⊢
+    simp only [bind_eq, pure_eq] at hG ⊢
+    cases hR : rbody v with
+    | error e =>
+      rw [hR] at hG
+      obtain ⟨h1, h2, h3⟩ := hb v st hst hrec0 (by rw [hR]; exact good_of_err hG)
+      unfold M.bind
+      cases hms : body v st with
+      | mk s' r =>
+        rw [hms, hR] at h1
+        rw [hms] at h2 h3
+        simp only at h1 h2 h3
+        subst h1
+        exact ⟨rfl, h2, h3⟩
+    | ok o =>
+      rw [hR] at hG
+      obtain ⟨h1, h2, h3⟩ := hb v st hst hrec0 (by rw [hR]; exact good_ok o)
+      unfold M.bind
+      cases hms : body v st with
+      | mk s' r =>
+        rw [hms, hR] at h1
+        rw [hms] at h2 h3
+        simp only at h1 h2 h3
+        subst h1
+        cases o with
+        | some b => exact ⟨rfl, h2, h3⟩
+        | none =>
+          have := ih s' h2 (h3.trans hrec0) hG
+          exact ⟨this.1, this.2.1, this.2.2.trans h3⟩
+
+theorem matchesMod_bind {α β : Type} {x : String} {ns0 : Env} {m : M α} {r : Except Err α} {f : α → M β}
+    {g : α → Except Err β} {st : St} (hm : Matches m r st)
+    (hf : ∀ a st', r = .ok a → st'.ns = st.ns → st'.record = st.record → MatchesMod x ns0 (f a) (g a) st')
+    (hns : delVar x st.ns = ns0) : MatchesMod x ns0 (M.bind m f) (r >>= g) st := by
+  intro hG
+  cases r with
+  | error e =>
+    have h := hm (good_of_err hG)
+    unfold M.bind
+    cases hms : m st with
+    | mk s' y =>
+      rw [hms] at h
+      obtain ⟨h1, h2, h3⟩ := h
+      simp only at h1 h2
+      subst h1
+      exact ⟨rfl, by simp only [h2]; exact hns, h3⟩
+  | ok a =>
+    have h := hm (good_ok a)
+    unfold M.bind
+    cases hms : m st with
+    | mk s' y =>
+      rw [hms] at h
+      obtain ⟨h1, h2, h3⟩ := h
+      simp only at h1
+      subst h1
+      have := hf a s' rfl h2 h3 hG
+      simp only
+      exact ⟨this.1, this.2.1, this.2.2.trans h3⟩
+
+theorem matches_loopGens_nil (hA : Agree cfg I R) (c : Consumer) (elt : Expr) (st : St) (hr : st.record = cfg.record)
+    (hS : Supported (keys st.ns) elt) : Matches (loopGens P I c elt []) (rLoop P cfg R c elt [] st.ns) st := by
+  unfold loopGens rLoop
+  simp only [bind_eq, pure_eq]
+  exact matches_bind (agree_matches hA elt st hr hS) (fun v st' _ _ _ => matches_pure _ st')
+
+/-- one iteration of the `for` clause: bind the variable, test the conditions, evaluate the element -/
+theorem genexp_body (hA : Agree cfg I R) (c : Consumer) (elt : Expr) (x : String) (ifs : List Expr) (ns0 : Env)
+    (hSi : ∀ i ∈ ifs, Supported (x :: keys ns0) i) (hSe : Supported (x :: keys ns0) elt)
+    (val : PVal) (s : St) (hs : delVar x s.ns = ns0) (hr : s.record = cfg.record) :
+    MatchesMod x ns0
+      (M.bind (M.setVar x val) (fun _ => M.bind (evalIfs P I ifs)
+        (fun b => if b = true then loopGens P I c elt [] else M.pure none)))
+      (rIfs P R ((x, val) :: ns0) ifs >>= fun b =>
+        if b = true then rLoop P cfg R c elt [] ((x, val) :: ns0) else pure none) s := by
+  have hns1 : (s.set x val).ns = (x, val) :: ns0 := by simp [St.set, setVar, hs]
+  have hk : keys (s.set x val).ns = x :: keys ns0 := by simp [hns1, keys]
+  have hr1 : (s.set x val).record = cfg.record := hr
+  have hM : Matches (M.bind (evalIfs P I ifs) (fun b => if b = true then loopGens P I c elt [] else M.pure none))
+      (rIfs P R (s.set x val).ns ifs >>= fun b =>
+        if b = true then rLoop P cfg R c elt [] (s.set x val).ns else pure none) (s.set x val) := by
+    refine matches_bind (matches_evalIfs hA ifs _ hr1 (fun i hi => hk ▸ hSi i hi)) (fun b st' _ hns hrec => ?_)
+    refine matches_ite (fun _ => ?_) (fun _ => matches_pure _ st')
+    have := matches_loopGens_nil (P := P) hA c elt st' (hrec.trans hr1) (by rw [hns, hk]; exact hSe)
+    rw [hns] at this
+    exact this
+  rw [hns1] at hM
+  intro hG
+  obtain ⟨h1, h2, h3⟩ := hM hG
+  refine ⟨h1, ?_, h3⟩
+  show delVar x (_ : St).ns = ns0
+  have : ∀ (m : M (Option Bool)), (M.bind (M.setVar x val) (fun _ => m)) s = m (s.set x val) := fun _ => rfl
+  rw [this, h2, hns1, delVar_cons_self]
+  rw [← hs]
+  simp [delVar, List.filter_filter]
+
+theorem matches_runGenexp (hA : Agree cfg I R) (hc : cfg.compiled = false) (c : Consumer) (elt : Expr) (x : String)
+    (iter : Expr) (ifs : List Expr) (st : St) (hr : st.record = cfg.record) (hx : x ∉ keys st.ns)
+    (hbk : baseKeys.contains x = false) (hSit : Supported (keys st.ns) iter)
+    (hSi : ∀ i ∈ ifs, Supported (x :: keys st.ns) i) (hSe : Supported (x :: keys st.ns) elt) :
+    Matches (runGenexp P I c elt [(some x, iter, ifs)])
+      (rLoop P cfg R c elt [(some x, iter, ifs)] st.ns >>= fun r => pure (.bool (r.getD c.default))) st := by
+  have hd : delVar x st.ns = st.ns := delVar_of_not_mem hx
+  -- the loops, up to the loop variable
+  have hloop : MatchesMod x st.ns (loopGens P I c elt [(some x, iter, ifs)])
+      (rLoop P cfg R c elt [(some x, iter, ifs)] st.ns) st := by
+    unfold loopGens rLoop
+    simp only [bind_eq, pure_eq, Option.getD_some]
+    refine matchesMod_bind (agree_matches hA iter st hr hSit) (fun itv st' _ hns hrec => ?_) hd
+    by_cases hm : itv.isMissing = true
+    · intro hG
+      simp [hc, hm] at hG
+      exact absurd (hG _ rfl) (by simp [Bad])
+    · simp only [hm, hc, Bool.not_false, Bool.true_and, Bool.false_eq_true, if_false]
+      have hd' : delVar x st'.ns = st.ns := by rw [hns]; exact hd
+      refine matchesMod_bind (matches_lift _ st') (fun vals st'' _ hns' hrec' => ?_) hd'
+      refine matchesMod_forVals x st.ns _ _ cfg.record (fun val s hs hrs => ?_) vals st'' (by rw [hns']; exact hd')
+        ((hrec'.trans hrec).trans hr)
+      exact genexp_body hA c elt x ifs st.ns hSi hSe val s hs hrs
+  intro hG
+  unfold runGenexp
+  have hbk' : x ∉ baseKeys := by simpa using hbk
+  have hin : inData st x = false := by simp [inData, lookup_none_of_not_mem hx, hbk']
+  simp only [List.any_cons, List.any_nil, Option.isNone_some, Bool.or_self, Bool.false_eq_true, if_false,
+    Option.getD_some, hin, List.map_cons, List.map_nil, bind_eq, pure_eq]
+  unfold M.finally_ M.bind
+  cases hR : rLoop P cfg R c elt [(some x, iter, ifs)] st.ns with
+  | error e =>
+    rw [hR] at hG
+    obtain ⟨h1, h2, h3⟩ := hloop (by rw [hR]; exact good_of_err hG)
+    cases hms : loopGens P I c elt [(some x, iter, ifs)] st with
+    | mk s' y =>
+      rw [hms, hR] at h1
+      rw [hms] at h2 h3
+      simp only at h1 h2 h3
+      subst h1
+      refine ⟨rfl, ?_, h3⟩
+      simp only [St.popAll, List.foldl_cons, List.foldl_nil]
+      exact h2
+  | ok o =>
+    rw [hR] at hG
+    obtain ⟨h1, h2, h3⟩ := hloop (by rw [hR]; exact good_ok o)
+    cases hms : loopGens P I c elt [(some x, iter, ifs)] st with
+    | mk s' y =>
+      rw [hms, hR] at h1
+      rw [hms] at h2 h3
+      simp only at h1 h2 h3
+      subst h1
+      refine ⟨rfl, ?_, h3⟩
+      simp only [St.popAll, List.foldl_cons, List.foldl_nil, M.pure]
+      exact h2
+
+/-! ### calls -/
+
+theorem matches_log_then {α : Type} (ev : Event) {m : M α} {r : Except Err α} {st : St}
+    (hm : ∀ st', st'.ns = st.ns → st'.record = st.record → Matches m r st') :
+    Matches (M.bind (M.log ev) (fun _ => m)) r st := by
+  intro hG
+  have := hm { st with trace := st.trace ++ [ev] } rfl rfl hG
+  exact this
+
+theorem matches_resolveWhitelisted (parts : List String) (obj : PVal) (st : St) :
+    Matches (resolveWhitelisted P obj parts) (rResolve P obj parts) st := by
+  induction parts generalizing obj st with
+  | nil => exact matches_pure _ st
+  | cons p ps ih =>
+    unfold resolveWhitelisted rResolve
+    simp only [bind_eq, pure_eq]
+    refine matches_log_then _ (fun st' _ _ => ?_)
+    cases hm : P.modattr obj p with
+    | error e => intro _; simp [M.bind, M.lift, hm]
+    | ok nxt =>
+      intro hG
+      have := ih nxt st' hG
+      simpa [M.bind, M.lift, hm] using this
+
+theorem resolve_some_nameOrAttr {f : Expr} {p : String} (h : resolveAttrPath f = some p) : isNameOrAttr f = true := by
+  cases f <;> simp_all [resolveAttrPath, attrChain, isNameOrAttr]
+
+theorem consumed_none_of_supported {b : List String} {fname : String} {args : List Expr}
+    {kwargs : List (String × Expr)} (h : ∀ a ∈ args, Supported b a) : consumedGenexp fname args kwargs = none := by
+  cases args with
+  | nil => simp [consumedGenexp]
+  | cons a rest =>
+    have ha := h a (by simp)
+    cases ha <;> simp [consumedGenexp]
+
+theorem matches_call_plain (hA : Agree cfg I R) (f : PVal) (args : List Expr) (kwargs : List (String × Expr))
+    (st : St) (hr : st.record = cfg.record) (hSa : ∀ a ∈ args, Supported (keys st.ns) a)
+    (hSk : ∀ k ∈ kwargs, Supported (keys st.ns) k.2) :
+    Matches (M.bind (evalList I args) (fun a => M.bind (evalKwargs I kwargs) (fun k =>
+        M.bind (M.log (.call f)) (fun _ => M.lift (P.call f a k)))))
+      (rList R st.ns args >>= fun a => rKwargs R st.ns kwargs >>= fun k => P.call f a k) st := by
+  refine matches_bind (matches_evalList hA args st hr hSa) (fun a st' _ hns hrec => ?_)
+  have hk := matches_evalKwargs hA kwargs st' (hrec.trans hr) (fun k hk => hns ▸ hSk k hk)
+  rw [hns] at hk
+  refine matches_bind hk (fun k st'' _ _ _ => ?_)
+  exact matches_log_then _ (fun st3 _ _ => matches_lift _ st3)
+
+theorem matches_evalCall (hA : Agree cfg I R) (hc : cfg.compiled = false) (func : Expr) (args : List Expr)
+    (kwargs : List (String × Expr)) (st : St) (hr : st.record = cfg.record)
+    (hS : Supported (keys st.ns) (.call func args kwargs)) :
+    Matches (evalCall P I func args kwargs) (rCall P cfg R st.ns func args kwargs) st := by
+  unfold evalCall rCall rTarget
+  simp only [hc, Bool.false_eq_true, if_false]
+  cases hp : resolveAttrPath func with
+  | none =>
+    intro _
+    by_cases hn : isNameOrAttr func = true <;> simp [hn, M.throw, bind, Except.bind]
+  | some fname =>
+    have hn := resolve_some_nameOrAttr hp
+    simp only [hn, Bool.not_true, Bool.false_eq_true, if_false]
+    cases hS with
+    | call _ _ _ _ hSa hSk =>
+      by_cases ha : allowedCalls.contains fname = true
+      · have hcn : consumedGenexp fname args kwargs = none := consumed_none_of_supported hSa
+        simp only [ha, if_true, hcn, bind_eq, pure_eq]
+        exact matches_call_plain hA (.builtin fname) args kwargs st hr hSa hSk
+      · simp only [ha, Bool.false_eq_true, if_false]
+        by_cases hw : Gen.WHITELIST.contains fname = true
+        · simp only [hw, if_true, bind_eq, pure_eq, bind_assoc, pure_bind]
+          refine matches_bind (matches_resolveWhitelisted _ _ st) (fun f st' _ hns hrec => ?_)
+          have := matches_call_plain (P := P) hA f args kwargs st' (hrec.trans hr) (fun a h => hns ▸ hSa a h)
+            (fun k h => hns ▸ hSk k h)
+          rw [hns] at this
+          exact this
+        · simp only [hw, Bool.false_eq_true, if_false]
+          intro _
+          simp [M.throw, bind, Except.bind]
+    | callGen _ _ fname' c elt x iter ifs hp' ha hcons hx hbk hSit hSi hSe =>
+      rw [hp] at hp'
+      cases hp'
+      have hcg : consumedGenexp fname [.genexp elt [(some x, iter, ifs)]] [] = some (c, elt, [(some x, iter, ifs)]) := by
+        simp [consumedGenexp, hcons]
+      simp only [ha, if_true, hcg, bind_eq, pure_eq]
+      refine matches_log_then _ (fun st' hns hrec => ?_)
+      have := matches_runGenexp (P := P) hA hc c elt x iter ifs st' (hrec.trans hr) (hns ▸ hx) hbk (hns ▸ hSit)
+        (fun i hi => hns ▸ hSi i hi) (hns ▸ hSe)
+      rw [hns] at this
+      simpa [bind, Except.bind] using this
+
+/-! ### one level of `_eval` -/
+
+/-- Inst: every node class of the documented grammar has a branch in `_eval` -/
+theorem kinds_handled : ∀ k ∈ ["Constant", "List", "Tuple", "Name", "Attribute", "BoolOp", "BinOp", "UnaryOp", "Compare",
+    "Call"], Gen.evalNodeKinds.contains k = true := by decide
+
+/-- Inst: the generated `AST_OPERATORS` maps every documented binary operator to the documented primitive -/
+theorem tableArith_doc : ∀ op ∈ docBinops, ∃ a, tableArith op = .ok a ∧ docArith op = some a := by
+  intro op hop
+  simp only [docBinops, List.mem_cons, List.mem_nil_iff, or_false] at hop
+  rcases hop with h | h | h | h | h | h <;> subst h <;> exact ⟨_, rfl, rfl⟩
+
+theorem table_not : Gen.AST_OPERATORS.lookup "Not" = some "operator.not_" := by decide
+
+theorem matches_evalStep (hA : Agree cfg I R) (hc : cfg.compiled = false) (e : Expr) (st : St)
+    (hr : st.record = cfg.record) (hS : Supported (keys st.ns) e) :
+    Matches (evalStep P I e) (refStep P cfg R st.ns e) st := by
+  unfold evalStep refStep
+  cases hS with
+  | const _ c =>
+    have hk : Gen.evalNodeKinds.contains "Constant" = true := kinds_handled "Constant" (by simp)
+    simp only [Expr.kind, hk, Bool.not_true, Bool.false_eq_true, if_false, pure_eq]
+    exact matches_pure _ st
+  | list _ es h =>
+    have hk : Gen.evalNodeKinds.contains "List" = true := kinds_handled "List" (by simp)
+    simp only [Expr.kind, hk, Bool.not_true, Bool.false_eq_true, if_false, bind_eq, pure_eq]
+    exact matches_bind (matches_evalList hA es st hr h) (fun vs st' _ _ _ => matches_pure _ st')
+  | tuple _ es h =>
+    have hk : Gen.evalNodeKinds.contains "Tuple" = true := kinds_handled "Tuple" (by simp)
+    simp only [Expr.kind, hk, Bool.not_true, Bool.false_eq_true, if_false, bind_eq, pure_eq]
+    exact matches_bind (matches_evalList hA es st hr h) (fun vs st' _ _ _ => matches_pure _ st')
+  | name _ id =>
+    have hk : Gen.evalNodeKinds.contains "Name" = true := kinds_handled "Name" (by simp)
+    simp only [Expr.kind, hk, Bool.not_true, Bool.false_eq_true, if_false]
+    intro _
+    cases hl : st.ns.lookup id with
+    | some v => simp [inData, dataGet, hl]
+    | none =>
+      by_cases hb : id ∈ baseKeys
+      · simp [inData, dataGet, hl, hb, refName, hc, hr]
+      · simp [inData, hl, hb, refName, hc, M.bind, M.log, M.lift]
+  | attr _ v a hv =>
+    have hk : Gen.evalNodeKinds.contains "Attribute" = true := kinds_handled "Attribute" (by simp)
+    have hp : Gen.attrRefusedPrefix = "__" := by decide
+    simp only [Expr.kind, hk, Bool.not_true, Bool.false_eq_true, if_false, hp, hc,
+      Bool.not_false, Bool.true_and]
+    by_cases hd : hasPrefix "__" a = true
+    · simp only [hd, if_true]
+      exact matches_throw _ st
+    · simp only [hd, Bool.false_eq_true, if_false, bind_eq, pure_eq]
+      refine matches_bind (agree_matches hA v st hr hv) (fun obj st' _ _ _ => ?_)
+      refine matches_log_then _ (fun st'' _ _ => ?_)
+      intro hG
+      cases hg : P.getattr obj a with
+      | some r => exact ⟨rfl, rfl, rfl⟩
+      | none =>
+        rw [hg] at hG
+        exact absurd (hG _ rfl) (by simp [Bad])
+  | boolop _ op vs h =>
+    have hk : Gen.evalNodeKinds.contains "BoolOp" = true := kinds_handled "BoolOp" (by simp)
+    simp only [Expr.kind, hk, Bool.not_true, Bool.false_eq_true, if_false]
+    exact matches_evalBool hA _ vs _ st hr h
+  | binop _ op l r hop hl hrr =>
+    have hk : Gen.evalNodeKinds.contains "BinOp" = true := kinds_handled "BinOp" (by simp)
+    simp only [Expr.kind, hk, Bool.not_true, Bool.false_eq_true, if_false, bind_eq, pure_eq,
+      hc, Bool.not_false, Bool.true_and]
+    refine matches_bind (agree_matches hA l st hr hl) (fun lv st' _ hns hrec => ?_)
+    have h2 := agree_matches hA r st' (hrec.trans hr) (hns ▸ hrr)
+    rw [hns] at h2
+    refine matches_bind h2 (fun rv st'' _ _ _ => ?_)
+    obtain ⟨a, ha1, ha2⟩ := tableArith_doc op hop
+    by_cases hg : (lv.isMissing || rv.isMissing) = true
+    · intro hG
+      simp [hg] at hG
+      exact absurd (hG _ rfl) (by simp [Bad])
+    · simp only [binopGuard, hg, Bool.false_eq_true, if_false, ha1, ha2]
+      exact matches_lift _ st''
+  | not _ x hx =>
+    have hk : Gen.evalNodeKinds.contains "UnaryOp" = true := kinds_handled "UnaryOp" (by simp)
+    simp only [Expr.kind, hk, Bool.not_true, Bool.false_eq_true, if_false, table_not,
+      beq_self_eq_true, if_true, bind_eq, pure_eq]
+    exact matches_bind (agree_matches hA x st hr hx) (fun v st' _ _ _ => matches_pure _ st')
+  | compare _ l rest hl hops hS' =>
+    have hk : Gen.evalNodeKinds.contains "Compare" = true := kinds_handled "Compare" (by simp)
+    simp only [Expr.kind, hk, Bool.not_true, Bool.false_eq_true, if_false, bind_eq, pure_eq]
+    refine matches_bind (agree_matches hA l st hr hl) (fun lv st' _ hns hrec => ?_)
+    have := matches_evalChain (P := P) hA hc rest lv (.bool true) st' (hrec.trans hr) hops (fun p hp => hns ▸ hS' p hp)
+    rw [hns] at this
+    exact this
+  | call _ f args kwargs hSa hSk =>
+    have hk : Gen.evalNodeKinds.contains "Call" = true := kinds_handled "Call" (by simp)
+    simp only [Expr.kind, hk, Bool.not_true, Bool.false_eq_true, if_false]
+    exact matches_evalCall hA hc f args kwargs st hr (.call _ _ _ _ hSa hSk)
+  | callGen _ f fname c elt x iter ifs h1 h2 h3 h4 h5 h6 h7 h8 =>
+    have hk : Gen.evalNodeKinds.contains "Call" = true := kinds_handled "Call" (by simp)
+    simp only [Expr.kind, hk, Bool.not_true, Bool.false_eq_true, if_false]
+    exact matches_evalCall hA hc f _ _ st hr (.callGen _ _ fname c elt x iter ifs h1 h2 h3 h4 h5 h6 h7 h8)
+
+/-- The induction on the evaluation depth: the transcription of `_eval` and the reference meaning agree. -/
+theorem agree_interp (P : Prim) (cfg : RefCfg) (hc : cfg.compiled = false) (fuel : Nat) :
+    Agree cfg (interp P fuel) (refEval P cfg fuel) := by
+  induction fuel with
+  | zero => intro e st _ _ _; exact ⟨rfl, rfl, rfl⟩
+  | succ n ih => intro e st hr hS; exact matches_evalStep ih hc e st hr hS
 
 end FlowRecord.Selector
